@@ -183,8 +183,26 @@ class World:
         shutil.rmtree(self.dir, ignore_errors=True)
 
 
+class Hang(Exception):
+    pass
+
+
+def _alarm(signum, frame):
+    raise Hang('no result within 60 s')
+
+
 def after(w, case, acc, extra=None):
     """fault-free parses after the fault: succeed, agree with a fresh parse, and repair the entry"""
+    import signal
+    signal.signal(signal.SIGALRM, _alarm)
+    signal.alarm(60)          # a corrupted pickle must not hang the loader either
+    try:
+        return _after(w, case, acc, extra)
+    finally:
+        signal.alarm(0)
+
+
+def _after(w, case, acc, extra=None):
     w.restart()
     for i in (1, 2):
         try:
